@@ -112,6 +112,8 @@ def jobs(seed=0):
     J += big_jobs(seed)
     J += dft_jobs(seed)
     J += bignorm_jobs(seed)
+    J += vmp_concrete_jobs(seed)
+    J.append([j for j in vmp_jobs(seed) if j.name == "vmp.tmp_bytes_formulas"][0])
     # vmp_jobs(seed) (contracts/vec_vmp.c) is NOT registered: with the matrix strides nrows*ncols*nn symbolic in nn most runs
     # exhaust the solver's memory or time, and dfcc rejects the loop contract on the block loop that contains the column
     # loop; the VMP wrappers are not covered (DESIGN 5/C11).
@@ -278,6 +280,34 @@ def dft_jobs(seed=0):
                  harness="vec_dft.c", entry="h_tmp_bytes", no_dfcc=True, defines={"RS": 1, "AS": 1}, cbmc_flags=["--unwind", "3", "--object-bits", "10"],
                  functions=["fft64_znx_small_single_product_tmp_bytes", "fft64_vec_znx_idft_tmp_bytes", "vec_znx_normalize_base2k_tmp_bytes_ref", "fft64_bytes_of_vec_znx_dft",
                             "fft64_bytes_of_vec_znx_big", "fft64_bytes_of_svp_ppol"], timeout=300))
+    return J
+
+
+def vmp_concrete_jobs(seed=0):
+    """bounded stand-in (S4) for the VMP wrappers: concrete ring dimension N as well as concrete shape, so that every matrix stride is
+    a constant; the reim4 block kernels are the REAL ones (inlined, unwound), only the FFT-side callees are assumed frames"""
+    J = []
+    SRC_ = ["arithmetic/vector_matrix_product.c", "reim4/reim4_arithmetic_ref.c"]
+    REPL = [("reim_fftvec_mul", "reim_fftvec_mul__c"), ("reim_fftvec_addmul", "reim_fftvec_addmul__c"), ("reim_from_znx64", "reim_from_znx64__c"), ("reim_fft", "reim_fft__c")]
+    shapes = [(2, 2, 2, 2), (1, 2, 2, 3), (3, 1, 2, 2), (2, 3, 2, 1), (3, 2, 1, 2), (2, 2, 3, 3),
+              (0, 1, 1, 1), (1, 0, 1, 1), (0, 2, 2, 2), (2, 0, 2, 2), (2, 2, 0, 2), (2, 2, 2, 0), (1, 1, 1, 1)]
+    for (rs, as_, nr, nc) in shapes:
+        for n in (4, 8, 16):
+            tier = "quick" if (n in (4, 8) and (0 in (rs, as_, nr, nc) or (rs, as_, nr, nc) in ((2, 2, 2, 2), (1, 2, 2, 3), (3, 1, 2, 2)))) else "thorough"
+            d = {"RS": rs, "AS": as_, "NR": nr, "NC": nc, "NBIG": 1 if n >= 8 else 0, "NCONC": n}
+            J.append(Job(name="vmp.apply_dft_to_dft_ref.r%da%d.m%dx%d.N%d" % (rs, as_, nr, nc, n), props=["C11", "C18", "C15"], shape="S4",
+                         sources=SRC_, harness="vec_vmp.c", entry="h_vmp_apply_dft_to_dft", enforce=[("fft64_vmp_apply_dft_to_dft_ref", "vmp_apply_dft_to_dft__c")],
+                         replace=list(REPL), defines=d, pre_unwindset=["*:10"], cbmc_flags=["--object-bits", "10"],
+                         functions=["fft64_vmp_apply_dft_to_dft_ref"], timeout=600, tier=tier, replay={"driver": "vmp", "fn": "apply_dft_to_dft_ref"},
+                         bound_note="N=%d, shape (res,a,nrows,ncols)=(%d,%d,%d,%d), all data; FFT-side callees replaced by ASSUMED frame contracts" % (n, rs, as_, nr, nc)))
+    for (nr, nc) in [(1, 1), (2, 2), (2, 3), (3, 1), (0, 2), (2, 0)]:
+        for n in (4, 8, 16):
+            d = {"RS": 1, "AS": 1, "NR": nr, "NC": nc, "NBIG": 1 if n >= 8 else 0, "NCONC": n}
+            J.append(Job(name="vmp.prepare_contiguous_ref.m%dx%d.N%d" % (nr, nc, n), props=["C11", "C18"], shape="S4",
+                         sources=SRC_, harness="vec_vmp.c", entry="h_vmp_prepare", enforce=[("fft64_vmp_prepare_contiguous_ref", "vmp_prepare_contiguous__c")],
+                         replace=list(REPL), defines=d, pre_unwindset=["*:10"], cbmc_flags=["--object-bits", "10"],
+                         functions=["fft64_vmp_prepare_contiguous_ref"], timeout=600, tier="quick" if n < 16 else "thorough", replay={"driver": "vmp", "fn": "prepare_contiguous_ref"},
+                         bound_note="N=%d, matrix %dx%d" % (n, nr, nc)))
     return J
 
 
